@@ -400,4 +400,5 @@ def run(prog, chk, tier):
     CE.adders(prog, chk, ks=(0, 1, 2, 3) if tier == "thorough" else (0, 1, 2))
     CE.build_side(prog, chk, rule="add_message_integrity-pushes")
     CE.fingerprint_build(prog, chk, rule="add_fingerprint-pushes")
+    CE.attr_into_owned(prog, chk)
     who_may_write(prog, chk)
